@@ -97,9 +97,6 @@ def run(repo, rep):
     rep.clause("C15-i", "IFM block depth per IFM precision (function interpreted): only 16-bit IFMs use the 16-deep block")
     rep.clause("C15-j", "parameter-named positional arguments of the block configuration search sit at their parameter's position")
     rep.clause("C15-l", "the LUT partition: on parts without reserved banks every stripe without a table invalidates the resident tables (no exemption by block type: elementwise operands reach the last banks) [rule shared with C03-f]")
-    from . import c03 as _c03
-
-    rep.run_borrowed(_c03, {"C03-f": "C15-l"}, repo, only_sites=("=ethosu/vela/lut.py:optimize_high_level_cmd_stream",))  # exact site: the index-unit finding F58 of the same function stays with C03
     rep.clause("C15-m", "scheduler, block-config query and generator derive 'the operation is scaled' (40-bit accumulators for 16-bit IFMs) from the same operands: the feature maps ifm, ifm2, ofm")
     rule_scaled_operands(repo, rep)
     rep.clause("C15-k", "resampling / rounding / activation modes are compared within one Enum class: the register enum and the API enum of the same name are different classes and never equal (annotation- and table-based class inference, comparisons and call arguments)")
@@ -129,6 +126,10 @@ def run(repo, rep):
 
     if binding_stem_lint(repo, rep, "C15-d", ["register_command_stream_generator", "register_command_stream_util", "architecture_allocator", "api", "high_level_command_to_npu_op", "scheduler", "cascade_builder"]) < 6:
         raise AnalysisError("binding stems: too few feature-map named locals found")
+    # borrowed last: a lender that cannot finish on a changed tree must not hide what this property's own rules established
+    from . import c03 as _c03
+
+    rep.run_borrowed(_c03, {"C03-f": "C15-l"}, repo, only_sites=("=ethosu/vela/lut.py:optimize_high_level_cmd_stream",))  # exact site: the index-unit finding F58 of the same function stays with C03
 
 
 # ------------------------------------------------------------------ b, c
